@@ -28,8 +28,8 @@ from panqec.error_models import PauliErrorModel
 from panqec.utils import NumpyEncoder
 
 BLOCK_CODE = {1: 'Toric2DCode', 2: 'Planar2DCode'}
-DIRS = {1: (1.0, 0.0, 0.0), 2: (0.0, 0.0, 1.0), 3: (0.5, 0.0, 0.5),
-        4: (0.3, 0.6, 0.1), 5: (0.0, 1.0, 0.0)}      # 4: the float sum is 0.9999999999999999
+DIRS = {1: (1.0, 0.0, 0.0), 2: (0.3, 0.6, 0.1), 3: (0.5, 0.0, 0.5),      # 2: the float sum is 0.9999999999999999
+        4: (0.0, 0.0, 1.0), 5: (0.0, 1.0, 0.0)}
 
 
 def code_params(c, form):
